@@ -6,6 +6,7 @@ import PasskeyVerif.Driver.RpId
 import PasskeyVerif.Driver.AuthData
 import PasskeyVerif.Driver.Ctap
 import PasskeyVerif.Driver.Auth
+import PasskeyVerif.Driver.Client
 open PasskeyVerif
 
 structure DriverState where
@@ -25,6 +26,9 @@ def stepLine (st : DriverState) (line : String) : DriverState × String :=
       ({ st with hid := h }, out)
     else if tok.startsWith "au." then
       let (a, out) := Driver.Auth.step st.au op impl
+      ({ st with au := a }, out)
+    else if tok.startsWith "cl." then
+      let (a, out) := Driver.Client.step st.au op impl
       ({ st with au := a }, out)
     else if tok.startsWith "psl." then (st, Driver.Psl.step op impl)
     else if tok.startsWith "rp." then (st, Driver.RpId.step op impl)
